@@ -12,7 +12,7 @@
     [inc_end m g n] / [hh_end g n] = n lies on an included / on an H-H bond, [charge_changed a] = the two charges in typesGH differ.
     Theorems 13-17: the RadiusExpand helpers. *)
 From Coq Require Import List NArith ZArith Bool.
-From SK Require Import lib.LGraph lib.C01_GraphLemmas model.C01_Model model.C01_Opts model.C02_Model model.C02_Store model.C02_Api proof.C02_Store proof.C02_StoreCtx proof.C02_StoreEquiv proof.C02_StoreNest proof.C02_StoreCtx2 proof.C02_Api model.C02_Compare proof.C02_Compare proof.C02_Proof proof.C02_Opts proof.C02_OptsEquiv proof.C02_Ctx proof.C02_Lre proof.C02_LreTrace proof.C02_Sides proof.C02_Sides2 proof.C02_CtxEquiv proof.C02_LreEquiv proof.C02_CtxCentre proof.C02_CtxNest model.C01_String proof.C01_StringEH proof.C02_ExplicitH.
+From SK Require Import lib.LGraph lib.C01_GraphLemmas model.C01_Model model.C01_Opts model.C02_Model model.C02_Store model.C02_Api proof.C02_Store proof.C02_StoreCtx proof.C02_StoreEquiv proof.C02_StoreNest proof.C02_StoreCtx2 proof.C02_CtxFix proof.C02_Spectator proof.C02_Api model.C02_Compare proof.C02_Compare proof.C02_Proof proof.C02_Opts proof.C02_OptsEquiv proof.C02_Ctx proof.C02_Lre proof.C02_LreTrace proof.C02_Sides proof.C02_Sides2 proof.C02_CtxEquiv proof.C02_LreEquiv proof.C02_CtxCentre proof.C02_CtxNest model.C01_String proof.C01_StringEH proof.C02_ExplicitH.
 (* [extract_k_S] in section 28 is the definition of model/C02_Store.v (proof/C02_Proof.v has a lemma of that name) *)
 From SK Require Import model.C02_Store.
 Import ListNotations.
@@ -817,3 +817,46 @@ Theorem C02_ball_radii_add : forall (A B : Type) (g : lgraph A B) (S : list N) (
   dist_le_g g S (j + k) n <-> dist_le_g g (knn_g g S j) k n.
 Proof. exact (@ball_radii_add). Qed.
 Print Assumptions C02_ball_radii_add.
+
+(** 46. A reaction centre (a rule graph) is a fixed point of every context extraction: for every radius k the radius-k context of
+        get_rc g is get_rc g again — for full-label ITS graphs and for every label shape. *)
+Theorem C02_ctx_of_centre : forall (g : its) (k : nat), wf g -> geq (extract_k (get_rc g) k) (get_rc g).
+Proof. exact ctx_of_centre. Qed.
+Print Assumptions C02_ctx_of_centre.
+
+Theorem C02_ctxS_of_centre : forall (g : sits) (k : nat), wf g ->
+  geq (extract_k_S (get_rc_S K_default false false g) k) (get_rc_S K_default false false g).
+Proof. exact ctxS_of_centre. Qed.
+Print Assumptions C02_ctxS_of_centre.
+
+Theorem C02_unequal_of_context : forall (g : its) (k : nat), wf g -> (1 <= k)%nat ->
+  forall n, In n (unequal_nodes (extract_k g k)) <-> In n (unequal_nodes g).
+Proof. exact unequal_of_context. Qed.
+Print Assumptions C02_unequal_of_context.
+
+(** 47. Spectator edits (the count-changing / rewiring in-place edits of the history populations): get_rc depends only on the atoms and
+        on the sub-list of relevant bonds (changed, or between two hydrogens).  Same atoms + same relevant bonds => the SAME centre;
+        adding or deleting a bond that is unchanged and not H-H, anywhere in the edge list, never changes the centre (the contexts may
+        change: witness in proof/C02_Spectator.v). *)
+Theorem C02_rc_same_relevant : forall g g' : its, gnodes g' = gnodes g ->
+  filter (fun e : N * N * iedge => changed (snd e) || is_hh g (fst (fst e)) (snd (fst e))) (gedges g') =
+  filter (fun e : N * N * iedge => changed (snd e) || is_hh g (fst (fst e)) (snd (fst e))) (gedges g) ->
+  get_rc g' = get_rc g.
+Proof. exact rc_same_relevant. Qed.
+Print Assumptions C02_rc_same_relevant.
+
+Theorem C02_rc_add_spectator_bond : forall (g : its) l1 l2 u v x, gedges g = l1 ++ l2 -> changed x = false -> is_hh g u v = false ->
+  get_rc (LG (gnodes g) (l1 ++ (u, v, x) :: l2)) = get_rc g.
+Proof. exact rc_add_spectator_bond. Qed.
+Print Assumptions C02_rc_add_spectator_bond.
+
+Theorem C02_rc_del_spectator_bond : forall (g : its) l1 l2 u v x, gedges g = l1 ++ (u, v, x) :: l2 -> changed x = false -> is_hh g u v = false ->
+  get_rc (LG (gnodes g) (l1 ++ l2)) = get_rc g.
+Proof. exact rc_del_spectator_bond. Qed.
+Print Assumptions C02_rc_del_spectator_bond.
+
+Theorem C02_rc_same_centre_labels : forall g g' : its, gedges g' = gedges g -> (forall n, is_h g' n = is_h g n) ->
+  (forall a b x, In (a, b, x) (gedges g) -> changed x || is_hh g a b = true -> label g' a = label g a /\ label g' b = label g b) ->
+  get_rc g' = get_rc g.
+Proof. exact rc_same_centre_labels. Qed.
+Print Assumptions C02_rc_same_centre_labels.
